@@ -10,6 +10,14 @@ From Flocq Require Import Core IEEE754.BinarySingleNaN.
 From QV Require Import Lib.Num.
 Open Scope Z_scope.
 
+(* the concrete formats *)
+Definition Hp24 : Prec_gt_0 24 := eq_refl. Definition Hpe24 : Prec_lt_emax 24 128 := eq_refl.
+Definition Hp11 : Prec_gt_0 11 := eq_refl. Definition Hpe11 : Prec_lt_emax 11 16 := eq_refl.
+Definition Hp8 : Prec_gt_0 8 := eq_refl.   Definition Hpe8 : Prec_lt_emax 8 128 := eq_refl.
+Definition Hp3 : Prec_gt_0 3 := eq_refl.   Definition Hpe3 : Prec_lt_emax 3 16 := eq_refl.
+Definition Hp4 : Prec_gt_0 4 := eq_refl.   Definition Hpe4 : Prec_lt_emax 4 9 := eq_refl.
+
+
 Section Fmt.
 Variables prec emax : Z.
 Context (Hp : Prec_gt_0 prec) (Hpe : Prec_lt_emax prec emax).
@@ -97,13 +105,6 @@ End Narrow.
 
 End Fmt.
 
-(* the concrete formats *)
-Definition Hp24 : Prec_gt_0 24 := eq_refl. Definition Hpe24 : Prec_lt_emax 24 128 := eq_refl.
-Definition Hp11 : Prec_gt_0 11 := eq_refl. Definition Hpe11 : Prec_lt_emax 11 16 := eq_refl.
-Definition Hp8 : Prec_gt_0 8 := eq_refl.   Definition Hpe8 : Prec_lt_emax 8 128 := eq_refl.
-Definition Hp3 : Prec_gt_0 3 := eq_refl.   Definition Hpe3 : Prec_lt_emax 3 16 := eq_refl.
-Definition Hp4 : Prec_gt_0 4 := eq_refl.   Definition Hpe4 : Prec_lt_emax 4 9 := eq_refl.
-
 Definition e5m2 := binary_float 3 16.
 Definition e4m3c := binary_float 4 9.   (* container of e4m3fn at half scale *)
 
@@ -158,8 +159,22 @@ Definition nan_to_num (x : fl) : fl :=
   | _ => x
   end.
 
+(* element * Python float, as torch computes it: in float32 with the scalar rounded to float32 *)
+Definition b64_to_f32 (x : b64) : binary_float 24 128 :=
+  match x with
+  | B754_zero s => B754_zero s
+  | B754_infinity s => B754_infinity s
+  | B754_nan => B754_nan
+  | B754_finite s m e _ =>
+    binary_normalize 24 128 Hp24 Hpe24 mode_NE (if s then Zneg m else Zpos m) e s
+  end.
+Definition mul_py (x : fl) (k : b64) : fl :=
+  narrow 24 128 prec emax Hp Hpe 0
+    (@Bmult 24 128 Hp24 Hpe24 mode_NE (narrow prec emax 24 128 Hp24 Hpe24 0 x) (b64_to_f32 k)).
+
 Global Instance NumFl : Num fl := {
   n_of_b64 := of_b64;
+  n_mul_py := mul_py;
   n_nan_to_num := nan_to_num;
   n_of_Z := fof_Z prec emax Hp Hpe;
   n_add := Bplus mode_NE;
